@@ -207,7 +207,11 @@ EnsureSize(n)  == IF Huge(n) THEN Fail("EnsureSize", n, 0, 0, 0, <<>>, "err") EL
 EnsureSizeSet(n) == IF Huge(n) THEN Fail("EnsureSizeSet", n, 0, 0, 0, <<>>, "err") ELSE Ok("EnsureSizeSet", n, 0, 0, 0, <<>>,
                        IF n >= Len(s) THEN s \o (IF Wrong = "stale" THEN [i \in 1..(n - Len(s)) |-> 1] ELSE Defaults(n - Len(s))) ELSE Take(s, n), <<>>)
 SetSize(n) == IF n >= Len(s) THEN s \o Defaults(n - Len(s)) ELSE Take(s, n)
-EnsureSizeX(n, extra, shrink) == IF Huge(n) THEN Fail("EnsureSizeX", n, extra, shrink, 0, <<>>, "err") ELSE Ok("EnsureSizeX", n, extra, shrink, 0, <<>>, s, <<>>)     \* EnsureSize(n, false, extraReallocItems, allowShrink): only the allocation changes, whatever n is
+\* numSlots + extraReallocItems beyond 32 bits: B_RESOURCE_LIMIT when the call would have to reallocate, success when it has nothing to do - which of the two
+\* depends on the capacity, which is not part of the ideal sequence: "okerr" = success or a failure, the contents unchanged either way
+EnsureSizeX(n, extra, shrink) == IF Huge(n) THEN Fail("EnsureSizeX", n, extra, shrink, 0, <<>>, "err")
+                                 ELSE IF Huge(extra) THEN Apply("EnsureSizeX", n, extra, shrink, 0, <<>>, "okerr", 0, 0, <<>>, s, <<>>)
+                                 ELSE Ok("EnsureSizeX", n, extra, shrink, 0, <<>>, s, <<>>)     \* EnsureSize(n, false, extraReallocItems, allowShrink): only the allocation changes, whatever n is
 EnsureSizeSetX(n, extra, shrink) == IF Huge(n) THEN Fail("EnsureSizeSetX", n, extra, shrink, 0, <<>>, "err") ELSE Ok("EnsureSizeSetX", n, extra, shrink, 0, <<>>, SetSize(n), <<>>)   \* EnsureSize(n, true, extraReallocItems, allowShrink): "[extra] is ignored if (setNumItems) is true"
 EnsureCanAdd(n) == IF Huge(n) THEN Fail("EnsureCanAdd", n, 0, 0, 0, <<>>, "err") ELSE Ok("EnsureCanAdd", n, 0, 0, 0, <<>>, s, <<>>)     \* "B_RESOURCE_LIMIT" when GetNumItems()+n overflows
 ShrinkToFit(n)  == IF Huge(n) THEN Fail("ShrinkToFit", n, 0, 0, 0, <<>>, "err") ELSE Ok("ShrinkToFit", n, 0, 0, 0, <<>>, s, <<>>)
@@ -269,10 +273,9 @@ GenAdd == Ready /\
                   \/ \E i \in Idx \cup Big2, j \in {0, Len(s) - 1} : InsertItemAtOwn(i, j)
                   \/ \E v \in Vals : InsertSorted(v)
     \/ \E v \in Vals : (Fits(1) \/ v \in ItemsOf(s)) /\ (AddTailIfAbsent(v) \/ AddHeadIfAbsent(v))
-    \* (startIndex = 0x80000000 is kept out of AddHeadMulti: open known finding QaddHeadStartSign)
-    \/ \E src \in Srcs, c \in Cuts : Fits(SliceLen(src, c[1], c[2])) /\ (AddTailMulti(src, c[1], c[2]) \/ (c[1] # 96 /\ AddHeadMulti(src, c[1], c[2])))
+    \/ \E src \in Srcs, c \in Cuts : Fits(SliceLen(src, c[1], c[2])) /\ (AddTailMulti(src, c[1], c[2]) \/ AddHeadMulti(src, c[1], c[2]))
     \/ \E src \in Srcs : Fits(Len(src)) /\ (AddTailMultiArr(src) \/ AddHeadMultiArr(src))
-    \/ \E c \in Cuts : Fits(SliceLen(s, c[1], c[2])) /\ (AddTailMultiSelf(c[1], c[2]) \/ (c[1] # 96 /\ AddHeadMultiSelf(c[1], c[2])))
+    \/ \E c \in Cuts : Fits(SliceLen(s, c[1], c[2])) /\ (AddTailMultiSelf(c[1], c[2]) \/ AddHeadMultiSelf(c[1], c[2]))
     \/ \E i \in Idx, src \in Srcs, c \in Cuts2 : Fits(SliceLen(src, c[1], c[2])) /\ InsertItemsAt(i, src, c[1], c[2])
     \/ \E i \in Big2 : InsertItemsAt(i, <<>>, 0, NoLimit)       \* nothing to insert: documented to succeed wherever
     \/ \E i \in Idx, src \in Srcs : Fits(Len(src)) /\ InsertItemsAtArr(i, src)
@@ -295,8 +298,10 @@ GenIndex == Ready /\
 GenSize == Ready /\
     \/ \E n \in {0, 2, 4, 5, 8} \cup Big2 : EnsureSize(n)
     \/ \E n \in (0..MaxLen) \cup Big2 : EnsureSizeSet(n)
-    \* (a boundary value for extraReallocItems is kept out: open known finding QextraOverflow)
     \/ \E n \in Big2, sh \in {0, 1} : EnsureSizeX(n, 0, sh) \/ EnsureSizeSetX(n, 0, sh)
+    \/ \E n \in {0, 3, 6} \cup Big2, e \in Big2, sh \in {0, 1} : EnsureSizeX(n, e, sh)
+    \* (a boundary value for extraReallocItems together with setNumItems = true is kept out: the header says the argument "is ignored if (setNumItems) is true",
+    \*  the code does not ignore it - reported, see checks/c16.py)
     \/ \E x \in {<<0, 0, 1>>, <<2, 0, 1>>, <<4, 0, 1>>, <<4, 2, 0>>, <<3, 2, 1>>, <<6, 0, 0>>} : EnsureSizeX(x[1], x[2], x[3])
     \/ \E x \in {<<0, 0, 1>>, <<1, 0, 1>>, <<2, 2, 1>>, <<3, 0, 0>>, <<4, 0, 1>>} : x[1] <= MaxLen /\ EnsureSizeSetX(x[1], x[2], x[3])
     \/ \E n \in {1, 3, 6} \cup Big : EnsureCanAdd(n)
@@ -349,7 +354,7 @@ FailureExact == Stepped =>
     /\ (L.op \in EndOps => (L.st = "notfound" <=> L.pre = <<>>) /\ L.st \in {"ok", "notfound"})
     /\ (L.op \in FindOps => (L.st = "notfound" <=> L.v \notin ItemsOf(L.pre)) /\ L.st \in {"ok", "notfound"})
     /\ (L.op \in {"InsertItemsAt", "InsertItemsAtArr", "InsertItemsAtSelf"} => (L.st = "ok" \/ L.a > Len(L.pre)))
-    /\ (L.op \in SizeOps => (L.st = "err" <=> L.a >= 90) /\ L.st \in {"ok", "err"})
+    /\ (L.op \in SizeOps => (L.st = "err" <=> L.a >= 90) /\ (L.st = "okerr" <=> L.op = "EnsureSizeX" /\ L.a < 90 /\ L.b >= 90) /\ L.st \in {"ok", "err", "okerr"})
     /\ (L.op \notin IndexedOps \cup EndOps \cup FindOps \cup SizeOps \cup {"InsertItemsAt", "InsertItemsAtArr", "InsertItemsAtSelf"} => L.st \in {"ok", ""})
 
 QueryOps == {"GetItemAt", "GetItemPtr", "GetWithDefault", "GetWithDefaultV", "HeadWithDefault", "TailWithDefault", "IndexOf", "LastIndexOf", "Contains",
